@@ -7,6 +7,7 @@ import (
 	"os"
 	"path/filepath"
 	"regexp"
+	"runtime"
 	"sort"
 	"strconv"
 	"strings"
@@ -69,6 +70,37 @@ type violationLine struct {
 }
 
 var raceLogOffset int64
+
+// livelockAfter: real time a single simulated run may take. Runs take milliseconds; a run that is
+// still going after this long sits in a loop of the library that never reaches a scheduling
+// point (no lock, channel, select, clock or file operation), which the scheduler cannot see.
+const livelockAfter = 40 * time.Second
+
+// libraryFrame returns the innermost eventlogger frame of the goroutine that is busy.
+func libraryFrame() string {
+	buf := make([]byte, 1<<20)
+	n := runtime.Stack(buf, true)
+	for _, g := range strings.Split(string(buf[:n]), "\n\n") {
+		if !strings.Contains(g, "[running") && !strings.Contains(g, "[runnable") {
+			continue
+		}
+		for _, l := range strings.Split(g, "\n") {
+			l = strings.TrimSpace(l)
+			if strings.HasPrefix(l, "github.com/hashicorp/eventlogger") && !strings.Contains(l, "/simrt.") {
+				if i := strings.LastIndex(l, "("); i > 0 {
+					l = l[:i]
+				}
+				return strings.TrimPrefix(l, "github.com/hashicorp/eventlogger")
+			}
+		}
+	}
+	return "unknown"
+}
+
+// watchRun arms the livelock watchdog for one run; fire gets the library frame that is spinning.
+func watchRun(fire func(frame string)) *time.Timer {
+	return time.AfterFunc(livelockAfter, func() { fire(libraryFrame()) })
+}
 
 // readRaceLog returns what the race detector appended since the last call.
 func readRaceLog() string {
@@ -284,7 +316,26 @@ func TestSim(t *testing.T) {
 		}
 		run := runStart + i
 		sc := scs[int(run)%len(scs)]
+		wd := watchRun(func(frame string) {
+			// the run does not end: report it with a replay file that regenerates its tape, and leave
+			sig := sc.Prop + ".livelock:" + frame
+			if !knownSigs[sig] {
+				rf := &ReplayFile{Property: sc.Prop, Scenario: sc.Name, Seed: seed, Run: run, Tier: tier, Race: simrt.RaceBuild, Fresh: true,
+					Violation: Violation{Rule: sc.Prop + ".livelock", Sig: sig, Msg: "the run did not finish within " + livelockAfter.String() + " of real time: the library is spinning in " + frame + " without reaching a lock, channel, select, clock or file operation"}}
+				ei := enumIndexOf(run, len(scenarios[sc.Prop]))
+				rf.EnumIndex = &ei
+				rf.History = &ReplayHistory{RunStart: uint64(envInt("VERIF_RUN_START", 0)), NWorkers: int(envInt("VERIF_NWORKERS", 1)), Scenario: os.Getenv("VERIF_SCENARIO")}
+				path := filepath.Join(replayDir, fmt.Sprintf("%s-%s-%08x-s%d-r%d.json", sc.Prop, sanitize(sig), uint32(fnv(sig)), seed, run))
+				writeReplay(path, rf)
+				sum.Violations = append(sum.Violations, violationLine{Type: "violation", Prop: sc.Prop, Sig: sig, Rule: rf.Violation.Rule, Msg: rf.Violation.Msg, Replay: path, Seed: seed, Run: run, Scenario: sc.Name, Reproduced: true})
+			}
+			sum.Stats["run.livelock"]++
+			sum.WallS = time.Since(t0).Seconds()
+			enc.Encode(sum)
+			os.Exit(0)
+		})
 		res := execRun(t, sc, simrt.NewTape(seed, run), seed, run, tier, false)
+		wd.Stop()
 		if res.RaceFail || simrt.RaceBuild {
 			if txt := readRaceLog(); txt != "" {
 				for _, rv := range raceSignatures(txt) {
@@ -524,7 +575,18 @@ func replayMain(t *testing.T, enc *json.Encoder, path, tier string, scs []*Scena
 		readRaceLog()
 	}
 	enumIndexOverride = rf.EnumIndex
-	res := execRun(t, sc, simrt.NewReplayTape(rf.Tape, rf.Sched), rf.Seed, rf.Run, tier, true)
+	tape := simrt.NewReplayTape(rf.Tape, rf.Sched)
+	if rf.Fresh {
+		tape = simrt.NewTape(rf.Seed, rf.Run)
+	}
+	wd := watchRun(func(frame string) {
+		sig := rf.Property + ".livelock:" + frame
+		enc.Encode(replayOutcome{Type: "replay", Prop: rf.Property, Replay: path, Sig: rf.Violation.Sig, Reproduced: sig == rf.Violation.Sig,
+			Viol: []Violation{{Rule: rf.Property + ".livelock", Sig: sig, Msg: "the run did not finish: the library is spinning in " + frame}}})
+		os.Exit(0)
+	})
+	res := execRun(t, sc, tape, rf.Seed, rf.Run, tier, true)
+	wd.Stop()
 	if simrt.RaceBuild {
 		res.Viol = append(res.Viol, raceSignatures(readRaceLog())...)
 	}
